@@ -132,6 +132,31 @@ func exprString2(e ast.Expr) string {
 		return exprString2(v.X) + "[" + exprString2(v.Index) + "]"
 	case *ast.StarExpr:
 		return "*" + exprString2(v.X)
+	case *ast.ArrayType:
+		if v.Len == nil {
+			return "[]" + exprString2(v.Elt)
+		}
+		return "[" + exprString2(v.Len) + "]" + exprString2(v.Elt)
+	case *ast.ChanType:
+		switch v.Dir {
+		case ast.SEND:
+			return "chan<- " + exprString2(v.Value)
+		case ast.RECV:
+			return "<-chan " + exprString2(v.Value)
+		}
+		return "chan " + exprString2(v.Value)
+	case *ast.CompositeLit:
+		var es []string
+		for _, x := range v.Elts {
+			es = append(es, exprString2(x))
+		}
+		t := ""
+		if v.Type != nil {
+			t = exprString2(v.Type)
+		}
+		return t + "{" + strings.Join(es, ", ") + "}"
+	case *ast.KeyValueExpr:
+		return exprString2(v.Key) + ": " + exprString2(v.Value)
 	}
 	return fmt.Sprintf("<%T>", e)
 }
@@ -416,6 +441,27 @@ func genExtracted(b *strings.Builder, root, authp, httpio *pkg) {
 	w("Definition reverse_formatter_read_per_connection : bool := %s.", coqBool(reverseFormatterReadPerConnection(root)))
 	w("(* the redial goroutine installs the keepalive handlers on the connection it has just swapped in *)")
 	w("Definition redial_sets_up_pings_after_swap : bool := %s.", coqBool(assignBeforeCallDeep(root, "tryReconnect", "c.conn", "c.setupPings")))
+	w("(* control, synchronisation and shared-state skeletons of the functions the state-machine models are written against *)")
+	for _, f := range [][2]string{{"wsConn", "handleResponse"}, {"wsConn", "closeInFlight"}, {"wsConn", "closeChans"}, {"wsConn", "handleCall"},
+		{"wsConn", "cancelCtx"}, {"wsConn", "handleCtxAsync"}, {"wsConn", "handleChanMessage"}, {"wsConn", "handleChanClose"},
+		{"wsConn", "handleOutChans"}, {"wsConn", "handleChanOut"}, {"wsConn", "readFrame"}, {"wsConn", "handleFrame"}, {"wsConn", "sendRequest"},
+		{"wsConn", "tryReconnect"}, {"wsConn", "handleWsConn"}, {"wsConn", "setupPings"}, {"wsConn", "nextMessage"}, {"wsConn", "nextWriter"},
+		{"client", "makeOutChan"}, {"client", "setupRequestChan"}, {"handler", "handleReader"}, {"handler", "handle"}, {"", "doCall"}} {
+		w("Definition effects_%s : list string := %s.", f[1], strList(effectSkeleton(root, f[0], f[1])))
+	}
+	w("Definition effects_auth_ServeHTTP : list string := %s.", strList(effectSkeleton(authp, "Handler", "ServeHTTP")))
+	w("(* the retry loop of handleRpcCall: every way out of it (in source order) and what follows the retry decision *)")
+	{
+		leaves, tail := retryLoop(root)
+		w("Definition retry_loop_leaves : list string := %s.", strList(leaves))
+		w("Definition retry_loop_tail : list string := %s.", strList(tail))
+	}
+	w("(* select statements: the communications each one waits on, in source order (a default arm is listed as \"default\") *)")
+	w("Definition selects_handleWsConn : list (list string) := %s.", selectComms(root, "handleWsConn"))
+	w("Definition selects_handleChanOut : list (list string) := %s.", selectComms(root, "handleChanOut"))
+	w("Definition selects_setupRequestChan : list (list string) := %s.", selectComms(root, "setupRequestChan"))
+	w("(* the client's sink pump (makeOutChan) waits with reflect.Select on these alternatives *)")
+	w("Definition outchan_select_cases : list string := %s.", strList(reflectSelectCases(root, "makeOutChan")))
 	w("(* keepalive *)")
 	w("(* the options that carry the keepalive parameters: every statement of the closure each one returns *)")
 	w("Definition option_bodies : list (string * list string) := [%s].", strings.Join([]string{
@@ -1315,4 +1361,319 @@ func stmtString(st ast.Stmt) string {
 		return "return"
 	}
 	return fmt.Sprintf("%T", st)
+}
+
+// selectComms: for every select statement of function fn (function literals included), in source order, the list of
+// its communication clauses as text
+func selectComms(p *pkg, fn string) string {
+	fd := p.anyFunc(fn)
+	if fd == nil {
+		die("%s not found", fn)
+	}
+	var all []string
+	ast.Inspect(fd.Body, func(n ast.Node) bool {
+		ss, ok := n.(*ast.SelectStmt)
+		if !ok {
+			return true
+		}
+		var comms []string
+		for _, c := range ss.Body.List {
+			cc := c.(*ast.CommClause)
+			if cc.Comm == nil {
+				comms = append(comms, "default")
+				continue
+			}
+			switch x := cc.Comm.(type) {
+			case *ast.SendStmt:
+				comms = append(comms, exprString2(x.Chan)+" <- "+exprString2(x.Value))
+			default:
+				comms = append(comms, stmtString(cc.Comm))
+			}
+		}
+		all = append(all, strList(comms))
+		return true
+	})
+	return "[" + strings.Join(all, "; ") + "]"
+}
+
+// reflectSelectCases: the Chan (and Dir) of every reflect.SelectCase literal in function fn, in source order
+func reflectSelectCases(p *pkg, fn string) []string {
+	fd := p.anyFunc(fn)
+	if fd == nil {
+		die("%s not found", fn)
+	}
+	var out []string
+	one := func(cl *ast.CompositeLit) {
+		dir, ch := "", ""
+		for _, e := range cl.Elts {
+			if kv, ok := e.(*ast.KeyValueExpr); ok {
+				switch exprString(kv.Key) {
+				case "Dir":
+					dir = exprString2(kv.Value)
+				case "Chan":
+					ch = exprString2(kv.Value)
+				}
+			}
+		}
+		out = append(out, dir+" "+ch)
+	}
+	ast.Inspect(fd.Body, func(n ast.Node) bool {
+		cl, ok := n.(*ast.CompositeLit)
+		if !ok || cl.Type == nil {
+			return true
+		}
+		switch exprString2(cl.Type) {
+		case "reflect.SelectCase":
+			one(cl)
+			return false
+		case "[]reflect.SelectCase":
+			for _, e := range cl.Elts {
+				if el, ok := e.(*ast.CompositeLit); ok {
+					one(el)
+				}
+			}
+			return false
+		}
+		return true
+	})
+	// the arms of the switch over the chosen alternative
+	ast.Inspect(fd.Body, func(n ast.Node) bool {
+		sw, ok := n.(*ast.SwitchStmt)
+		if !ok || sw.Tag == nil || exprString(sw.Tag) != "chosen" {
+			return true
+		}
+		for _, c := range sw.Body.List {
+			cc := c.(*ast.CaseClause)
+			var ls []string
+			for _, e := range cc.List {
+				ls = append(ls, exprString2(e))
+			}
+			if cc.List == nil {
+				ls = []string{"default"}
+			}
+			out = append(out, "case "+strings.Join(ls, ","))
+		}
+		return true
+	})
+	return out
+}
+
+// retryLoop: the for loop of rpcFunc.handleRpcCall. leaves: every return / break inside it with the condition (if or
+// select arm) that guards it; tail: the top-level statements of the body after the `if !retry { break }`
+func retryLoop(p *pkg) (leaves []string, tail []string) {
+	fd := p.funcDecl("rpcFunc", "handleRpcCall")
+	if fd == nil {
+		die("handleRpcCall not found")
+	}
+	var loop *ast.ForStmt
+	ast.Inspect(fd.Body, func(n ast.Node) bool {
+		if fs, ok := n.(*ast.ForStmt); ok && loop == nil && fs.Init != nil && strings.HasPrefix(stmtString(fs.Init), "attempt") {
+			loop = fs
+		}
+		return loop == nil
+	})
+	if loop == nil {
+		die("retry loop not found in handleRpcCall")
+	}
+	leaveOf := func(list []ast.Stmt) string {
+		for _, st := range list {
+			switch x := st.(type) {
+			case *ast.ReturnStmt:
+				return "return"
+			case *ast.BranchStmt:
+				return x.Tok.String()
+			}
+		}
+		return ""
+	}
+	var walk func(list []ast.Stmt)
+	walk = func(list []ast.Stmt) {
+		for _, st := range list {
+			switch x := st.(type) {
+			case *ast.IfStmt:
+				cond := exprString2(x.Cond)
+				if x.Init != nil {
+					cond = stmtString(x.Init) + "; " + cond
+				}
+				if l := leaveOf(x.Body.List); l != "" {
+					leaves = append(leaves, "if "+cond+": "+l)
+				}
+				walk(x.Body.List)
+				if eb, ok := x.Else.(*ast.BlockStmt); ok {
+					if l := leaveOf(eb.List); l != "" {
+						leaves = append(leaves, "else of "+cond+": "+l)
+					}
+					walk(eb.List)
+				}
+			case *ast.SelectStmt:
+				for _, c := range x.Body.List {
+					cc := c.(*ast.CommClause)
+					comm := "default"
+					if cc.Comm != nil {
+						comm = stmtString(cc.Comm)
+					}
+					if l := leaveOf(cc.Body); l != "" {
+						leaves = append(leaves, "select "+comm+": "+l)
+					}
+					walk(cc.Body)
+				}
+			case *ast.SwitchStmt:
+				for _, c := range x.Body.List {
+					cc := c.(*ast.CaseClause)
+					if l := leaveOf(cc.Body); l != "" {
+						leaves = append(leaves, "switch arm: "+l)
+					}
+					walk(cc.Body)
+				}
+			case *ast.BlockStmt:
+				if l := leaveOf(x.List); l != "" {
+					leaves = append(leaves, "block: "+l)
+				}
+				walk(x.List)
+			}
+		}
+	}
+	// a return / break directly in the loop body is unconditional; guarded ones are reported with their guard
+	if l := leaveOf(loop.Body.List); l != "" {
+		leaves = append(leaves, "unconditional "+l)
+	}
+	walk(loop.Body.List)
+	after := false
+	for _, st := range loop.Body.List {
+		if after {
+			tail = append(tail, stmtString(st))
+		}
+		if is, ok := st.(*ast.IfStmt); ok && exprString2(is.Cond) == "!retry" {
+			after = true
+		}
+	}
+	return
+}
+
+// effectSkeleton: control flow, synchronisation and shared-state effects of one function, in source order: conditions of
+// if / for / switch, range expressions, select communications, go / defer / return, channel sends, calls made as
+// statements (by callee; delete and close with their arguments), stores to fields and to indexed tables. Calls to the
+// logger and to the verif hook are left out, so are assignments to locals. The models are written against these lists.
+func effectSkeleton(p *pkg, recv, fn string) []string {
+	fd := p.funcDecl(recv, fn)
+	if fd == nil && recv == "" {
+		fd = p.anyFunc(fn)
+	}
+	if fd == nil {
+		die("%s.%s not found", recv, fn)
+	}
+	var out []string
+	callee := func(ce *ast.CallExpr) string { return exprString2(ce.Fun) }
+	noise := func(name string) bool {
+		return name == "vhook" || strings.HasPrefix(name, "log.") || strings.HasPrefix(name, "span.") || strings.HasPrefix(name, "stats.")
+	}
+	ast.Inspect(fd.Body, func(n ast.Node) bool {
+		switch v := n.(type) {
+		case *ast.IfStmt:
+			c := exprString2(v.Cond)
+			if v.Init != nil {
+				c = stmtString(v.Init) + "; " + c
+			}
+			out = append(out, "if "+c)
+		case *ast.TypeSwitchStmt:
+			out = append(out, "typeswitch")
+			for _, c := range v.Body.List {
+				cc := c.(*ast.CaseClause)
+				var ts []string
+				for _, t := range cc.List {
+					ts = append(ts, exprString2(t))
+				}
+				if cc.List == nil {
+					ts = []string{"default"}
+				}
+				out = append(out, "case "+strings.Join(ts, ","))
+			}
+		case *ast.SwitchStmt:
+			tag := ""
+			if v.Tag != nil {
+				tag = exprString2(v.Tag)
+			}
+			out = append(out, "switch "+tag)
+			for _, c := range v.Body.List {
+				cc := c.(*ast.CaseClause)
+				var ts []string
+				for _, t := range cc.List {
+					ts = append(ts, exprString2(t))
+				}
+				if cc.List == nil {
+					ts = []string{"default"}
+				}
+				out = append(out, "case "+strings.Join(ts, ","))
+			}
+		case *ast.ForStmt:
+			c := ""
+			if v.Cond != nil {
+				c = exprString2(v.Cond)
+			}
+			out = append(out, "for "+c)
+		case *ast.RangeStmt:
+			out = append(out, "range "+exprString2(v.X))
+		case *ast.SelectStmt:
+			out = append(out, "select")
+			for _, c := range v.Body.List {
+				cc := c.(*ast.CommClause)
+				if cc.Comm == nil {
+					out = append(out, "comm default")
+				} else if ss, ok := cc.Comm.(*ast.SendStmt); ok {
+					out = append(out, "comm "+exprString2(ss.Chan)+" <-")
+				} else {
+					out = append(out, "comm "+stmtString(cc.Comm))
+				}
+			}
+		case *ast.GoStmt:
+			if _, lit := v.Call.Fun.(*ast.FuncLit); lit {
+				out = append(out, "go func")
+			} else {
+				out = append(out, "go "+callee(v.Call))
+			}
+		case *ast.DeferStmt:
+			if _, lit := v.Call.Fun.(*ast.FuncLit); lit {
+				out = append(out, "defer func")
+			} else {
+				out = append(out, "defer "+callee(v.Call))
+			}
+		case *ast.ReturnStmt:
+			out = append(out, "return")
+		case *ast.BranchStmt:
+			out = append(out, v.Tok.String())
+		case *ast.SendStmt:
+			out = append(out, "send "+exprString2(v.Chan))
+		case *ast.IncDecStmt:
+			if _, ok := v.X.(*ast.Ident); !ok {
+				out = append(out, exprString2(v.X)+v.Tok.String())
+			}
+		case *ast.ExprStmt:
+			if ce, ok := v.X.(*ast.CallExpr); ok {
+				name := callee(ce)
+				if noise(name) {
+					return false
+				}
+				if name == "delete" || name == "close" {
+					var as []string
+					for _, a := range ce.Args {
+						as = append(as, exprString2(a))
+					}
+					out = append(out, name+"("+strings.Join(as, ", ")+")")
+				} else if _, lit := ce.Fun.(*ast.FuncLit); !lit {
+					out = append(out, "call "+name)
+				}
+			}
+		case *ast.AssignStmt:
+			for _, l := range v.Lhs {
+				switch x := l.(type) {
+				case *ast.IndexExpr:
+					out = append(out, "store "+exprString2(x.X)+"[...]")
+				case *ast.SelectorExpr:
+					out = append(out, "set "+exprString2(x))
+				}
+			}
+		}
+		return true
+	})
+	return out
 }
